@@ -144,11 +144,19 @@ func constIndex(info *types.Info, e ast.Expr) (string, int, bool) {
 var bigThreshold = new(big.Int).Lsh(big.NewInt(1), 32)
 
 func isBigLit(info *types.Info, e ast.Expr) (*big.Int, bool) {
-	lit, ok := ast.Unparen(e).(*ast.BasicLit)
-	if !ok || lit.Kind != token.INT {
+	var v *big.Int
+	switch x := ast.Unparen(e).(type) {
+	case *ast.BasicLit:
+		if x.Kind != token.INT {
+			return nil, false
+		}
+		v = bigOf(info, x)
+	case *ast.Ident, *ast.SelectorExpr:
+		// a named constant standing for the literal
+		v = bigOf(info, x)
+	default:
 		return nil, false
 	}
-	v := bigOf(info, lit)
 	if v == nil || v.Cmp(bigThreshold) < 0 {
 		return nil, false
 	}
@@ -584,79 +592,9 @@ func RuleK4(c *Ctx) {
 			continue
 		}
 		c.Saw(core.FnName(fn))
-		seen := map[int]bool{}
-		srcVar := ""
-		ok := true
-		var why []string
-		ast.Inspect(fd.Body, func(x ast.Node) bool {
-			call, isCall := x.(*ast.CallExpr)
-			if !isCall || len(call.Args) != 2 {
-				return true
-			}
-			sel, isSel := call.Fun.(*ast.SelectorExpr)
-			if !isSel || sel.Sel.Name != "PutUint64" {
-				return true
-			}
-			osel, isSel := sel.X.(*ast.SelectorExpr)
-			if !isSel {
-				return true
-			}
-			slots++
-			if osel.Sel.Name != spec.order {
-				ok = false
-				why = append(why, "byte order "+osel.Sel.Name+" instead of "+spec.order)
-			}
-			sl, isSl := call.Args[0].(*ast.SliceExpr)
-			v, k, isIdx := constIndex(info, call.Args[1])
-			if !isSl || !isIdx {
-				ok = false
-				why = append(why, "unrecognised PutUint64 operands")
-				return true
-			}
-			lo, hi := bigOf(info, sl.Low), bigOf(info, sl.High)
-			if lo == nil || hi == nil {
-				ok = false
-				why = append(why, "non-constant slice bounds")
-				return true
-			}
-			wantLo := int64(8 * k)
-			if spec.order == "BigEndian" {
-				wantLo = int64(24 - 8*k)
-			}
-			if lo.Int64() != wantLo || hi.Int64() != wantLo+8 {
-				ok = false
-				why = append(why, fmt.Sprintf("limb %d written at [%d:%d], expected [%d:%d]", k, lo.Int64(), hi.Int64(), wantLo, wantLo+8))
-			}
-			if seen[k] {
-				ok = false
-				why = append(why, fmt.Sprintf("limb %d written twice", k))
-			}
-			seen[k] = true
-			srcVar = v
-			return true
-		})
-		if len(seen) != 4 {
-			ok = false
-			why = append(why, fmt.Sprintf("%d of 4 limbs written", len(seen)))
-		}
-		if spec.regular && ok {
-			// the source variable is initialised from z.ToRegular()
-			reg := false
-			ast.Inspect(fd.Body, func(x ast.Node) bool {
-				if as, isAs := x.(*ast.AssignStmt); isAs && len(as.Lhs) == 1 && len(as.Rhs) == 1 && types.ExprString(as.Lhs[0]) == srcVar {
-					if call, isCall := as.Rhs[0].(*ast.CallExpr); isCall {
-						if sel, isSel := call.Fun.(*ast.SelectorExpr); isSel && sel.Sel.Name == "ToRegular" {
-							reg = true
-						}
-					}
-				}
-				return true
-			})
-			if !reg {
-				ok = false
-				why = append(why, "the encoded limbs are not those of z.ToRegular()")
-			}
-		}
+		_ = info
+		ok, why, nslots := k4LimbTable(c, fn, spec.order, spec.regular)
+		slots += nslots
 		c.Check(ok, "K4", "fr.Element."+spec.name+":limb-table", fd.Pos(), spec.name+": "+strings.Join(why, "; "), "4 limbs, "+spec.order+", offsets match")
 	}
 	// little-endian decoders are the big-endian decoder applied to the reversed bytes
@@ -669,7 +607,158 @@ func RuleK4(c *Ctx) {
 		c.Saw(core.FnName(fn))
 		c.k4Reversal(fn, name)
 	}
-	c.FloorN("K4", 8, slots, "PutUint64 slots")
+	c.FloorN("K4", 12, slots, "limb writes (PutUint64, loops expanded)")
+}
+
+// k4LimbTable: every PutUint64 of fn, with loop variables expanded over their constant range, as (limb, offset) pairs;
+// the pairs must be exactly limb k at [8k, 8k+8) (little-endian) resp. [24-8k, 32-8k) (big-endian), once each.
+func k4LimbTable(c *Ctx, fn *ssa.Function, order string, regular bool) (bool, []string, int) {
+	ok := true
+	var why []string
+	type put struct{ limb, lo, hi int64 }
+	var puts []put
+	cls := countedLoops(fn)
+	n := 0
+	var srcs []ssa.Value
+	for _, ci := range core.CallsIn(fn) {
+		call, isCall := ci.(*ssa.Call)
+		if !isCall {
+			continue
+		}
+		f := core.Callee(call.Common())
+		if f == nil || f.Name() != "PutUint64" || f.Pkg == nil || f.Pkg.Pkg.Path() != "encoding/binary" || len(call.Call.Args) != 3 {
+			continue
+		}
+		n++
+		recv := ""
+		if r := f.Signature.Recv(); r != nil {
+			recv = r.Type().String()
+		}
+		gotOrder := "?"
+		switch {
+		case strings.HasSuffix(recv, "bigEndian"):
+			gotOrder = "BigEndian"
+		case strings.HasSuffix(recv, "littleEndian"):
+			gotOrder = "LittleEndian"
+		}
+		if gotOrder != order {
+			ok = false
+			why = append(why, "byte order "+gotOrder+" instead of "+order)
+		}
+		sl, isSl := call.Call.Args[1].(*ssa.Slice)
+		if !isSl || sl.Low == nil && sl.High == nil {
+			ok = false
+			why = append(why, "PutUint64 does not write into a sub-slice of the result at "+c.P.Pos(call.Pos()))
+			continue
+		}
+		// the limb operand: array[idx]
+		var idxV, arr ssa.Value
+		switch x := call.Call.Args[2].(type) {
+		case *ssa.Index:
+			idxV, arr = x.Index, x.X
+		case *ssa.UnOp:
+			if ia, isIA := x.X.(*ssa.IndexAddr); isIA && x.Op == token.MUL {
+				idxV, arr = ia.Index, ia.X
+			}
+		}
+		if idxV == nil {
+			ok = false
+			why = append(why, "PutUint64 is not given a limb of the element at "+c.P.Pos(call.Pos()))
+			continue
+		}
+		srcs = append(srcs, arr)
+		var sym ssa.Value
+		from, to := int64(0), int64(1)
+		if cl := loopOf(cls, call.Block()); cl != nil {
+			a, isA := core.ConstInt(cl.init)
+			bd := linOf(cl.bound, nil, nil)
+			if !isA || cl.step != 1 || cl.op != token.LSS {
+				ok = false
+				why = append(why, "PutUint64 in a loop whose range is not constant at "+c.P.Pos(call.Pos()))
+				continue
+			}
+			if !bd.ok {
+				// range over the limb array itself
+				if x, isLen := core.IsLenOf(cl.bound); isLen {
+					if at, isArr := derefType(x.Type()).Underlying().(*types.Array); isArr {
+						bd = lin{0, at.Len(), true}
+					}
+				}
+			}
+			if !bd.ok {
+				ok = false
+				why = append(why, "PutUint64 in a loop whose range is not constant at "+c.P.Pos(call.Pos()))
+				continue
+			}
+			sym, from, to = cl.phi, a, bd.b
+		}
+		li := linOf(idxV, sym, nil)
+		lo, hi := lin{0, 0, true}, lin{0, 32, true}
+		if sl.Low != nil {
+			lo = linOf(sl.Low, sym, nil)
+		}
+		if sl.High != nil {
+			hi = linOf(sl.High, sym, nil)
+		}
+		if !li.ok || !lo.ok || !hi.ok {
+			ok = false
+			why = append(why, "limb index or byte offsets are not linear in the loop variable at "+c.P.Pos(call.Pos()))
+			continue
+		}
+		for i := from; i < to; i++ {
+			puts = append(puts, put{li.a*i + li.b, lo.a*i + lo.b, hi.a*i + hi.b})
+		}
+	}
+	seen := map[int64]bool{}
+	for _, p := range puts {
+		wantLo := 8 * p.limb
+		if order == "BigEndian" {
+			wantLo = 24 - 8*p.limb
+		}
+		if p.limb < 0 || p.limb > 3 {
+			ok = false
+			why = append(why, fmt.Sprintf("limb index %d out of range", p.limb))
+			continue
+		}
+		if p.lo != wantLo || p.hi != wantLo+8 {
+			ok = false
+			why = append(why, fmt.Sprintf("limb %d written at [%d:%d], expected [%d:%d]", p.limb, p.lo, p.hi, wantLo, wantLo+8))
+		}
+		if seen[p.limb] {
+			ok = false
+			why = append(why, fmt.Sprintf("limb %d written twice", p.limb))
+		}
+		seen[p.limb] = true
+	}
+	if len(seen) != 4 {
+		ok = false
+		why = append(why, fmt.Sprintf("%d of 4 limbs written", len(seen)))
+	}
+	if regular && ok {
+		for _, arr := range srcs {
+			// the limbs are those of z.ToRegular(): the array value, or the local it was stored into
+			v := arr
+			if al, isAl := v.(*ssa.Alloc); isAl {
+				if sts := storesInto(al); len(sts) == 1 {
+					v = sts[0].Val
+				}
+			}
+			call, isCall := v.(*ssa.Call)
+			if !isCall || !core.IsMethod(core.Callee(call.Common()), "bandersnatch/fr", "Element", "ToRegular") || !strings.HasPrefix(core.PathOf(call.Call.Args[0]), "p:z") && core.PathOf(call.Call.Args[0]) != "*(p:z)" {
+				ok = false
+				why = append(why, "the encoded limbs are not those of z.ToRegular()")
+			}
+		}
+	}
+	_ = n
+	return ok, uniqStrings(why), len(puts)
+}
+
+func derefType(t types.Type) types.Type {
+	if p, ok := t.Underlying().(*types.Pointer); ok {
+		return p.Elem()
+	}
+	return t
 }
 
 // k4Reversal: the bytes handed to big.Int.SetBytes are the input with positions i and len-1-i swapped over the whole length.
